@@ -2044,8 +2044,13 @@ static void fstack_account_time(struct uftrace_task_reader *task)
 		task->lost_seen = true;
 		task->display_depth_set = false;
 
-		/* XXX: currently LOST can occur in kernel */
-		for (i = task->stack_count; i >= task->user_stack_count; i--) {
+		/*
+		 * XXX: currently LOST can occur in kernel.
+		 * Close the open frames above the user frames: the innermost one
+		 * is func_stack[stack_count - 1], not the slot above it (whose stale
+		 * time was taken as the LOST time and billed to the innermost call).
+		 */
+		for (i = task->stack_count - 1; i >= task->user_stack_count; i--) {
 			fstack = fstack_get(task, i);
 			if (fstack == NULL)
 				continue;
